@@ -212,7 +212,36 @@ func runCheck(prop, repo, verifDir, tier, only string, workers int, verbose, noE
 	}
 	genSecs := time.Since(t0).Seconds() - loadSecs
 	results := SolveAll(allObs, workers)
+	var boundedNotes []string
+	boundedFail := ""
+	if only == "" {
+		for _, b := range cs.Bounded {
+			if b.Prop != prop {
+				continue
+			}
+			ok, sum := runBounded(b, tier, verifDir)
+			if !ok {
+				boundedFail = sum
+			}
+			boundedNotes = append(boundedNotes, "BOUNDED (not a proof): "+sum)
+		}
+	}
 	rep := buildReport(prop, tier, runs, results, cs, time.Since(t0).Seconds(), loadSecs, genSecs, verifDir, verbose)
+	if len(boundedNotes) > 0 {
+		cov := rep.evidence["coverage"].(map[string]interface{})
+		cov["bounded_standins"] = boundedNotes
+		for _, n := range boundedNotes {
+			fmt.Println(n)
+		}
+	}
+	if boundedFail != "" {
+		path := filepath.Join(verifDir, "out", "replays", prop+"-bounded.json")
+		data, _ := json.MarshalIndent(map[string]interface{}{"property": prop, "obligation": "bounded stand-in", "failing_input": boundedFail}, "", " ")
+		os.WriteFile(path, data, 0o644)
+		fmt.Printf("VIOLATION property=%s replay=%s\n", prop, path)
+		rep.exit = 1
+		rep.evidence["violations"] = rep.evidence["violations"].(int) + 1
+	}
 	if !noEvidence && prop != "" && prop != "all" && only == "" {
 		if err := rep.writeEvidence(verifDir); err != nil {
 			fmt.Println("ERROR writing evidence:", err)
